@@ -37,7 +37,7 @@ class C13(Check):
     assumptions = ["HaltonSampler/RSequenceSampler/halton(): real code", "pre-snap values observed through a pass-through at the module's digitize_data name; "
                    "if that seam is not engaged the run falls back to snapped values on a 1e-6 grid (dims<=3)",
                    "Halton start index recovered from the first point's base-2 coordinate; both 0- and 1-based readings of 'k-th point' accepted"]
-    quick = {"runs": 1500, "wall": 40, "item_timeout": 30}
+    quick = {"runs": 4000, "wall": 150, "item_timeout": 100}
     thorough = {"runs": 60000, "wall": 600, "item_timeout": 60}
 
     def gen(self, rng, tier, i):
